@@ -63,13 +63,17 @@ class FakeSock(object):
 
 
 class Adapter(object):
-  def __init__(self):
+  def __init__(self, connecting=False):
     self.loop = RecocoIOLoop()
     self.sock = FakeSock()
     self.w = RecocoIOWorker(self.sock)
     self.loop.register_worker(self.w)
     self.closes = 0
     self.w.close_handler = self._closed
+    if connecting:
+      # a worker whose connection is still being set up; its connect handler greets the peer (80 = Greet in Worker.tla)
+      self.w._connecting = True
+      self.w.connect_handler = lambda w: w.send(b"\x50")
     self._drain()
 
   def _closed(self, w):
@@ -118,7 +122,8 @@ class Adapter(object):
     buf = self.w.send_buf
     return {"accepted": list(self.sock.accepted),
             "buf": list(buf) if isinstance(buf, (bytes, bytearray)) else ["NOT-BYTES", repr(buf)[:40]],
-            "closed": bool(self.w.closed), "closes": self.closes, "shutwr": self.sock.shutwr}
+            "closed": bool(self.w.closed), "closes": self.closes, "shutwr": self.sock.shutwr,
+            "connecting": bool(self.w._connecting)}
 
   def signature(self, st, obs):
     sig = {"action": st["a"], "side": "worker"}
